@@ -188,6 +188,7 @@ class FnInfo:
         self.record_names = set()       # Python parameters that are records
         self.rec_paths = []             # sorted (dotted attribute path, lean parameter name)
         self.n_opaque = 0
+        self.has_bool_or_list_attrs = False
 
     def result_shape(self):
         """shape of the Lean result: Python return value, then the mutated list parameters"""
@@ -422,6 +423,8 @@ class FnTranslator:
         self.cfg = module.config.get(self.spec_name, module.config.get(node.name, {})) if outer is None else {}
         self.records = set(self.cfg.get("records", ()))
         self.record_attrs = {}        # dotted path -> lean name
+        self.record_bools = {}        # "path == Enum.MEMBER" -> lean name (Bool parameters)
+        self.record_lists = {}        # dotted path -> lean name (List Num parameters, declared in the configuration)
         self.opaque = dict(self.cfg.get("opaque", {}))
         self.opaque_targets = dict(self.cfg.get("opaque_targets", {}))
         for nm, fields in module.config.get("__tuples__", {}).items():
@@ -497,8 +500,13 @@ class FnTranslator:
         info.ret = self.ret_shape
         # record attribute parameters, sorted by path; opaque parameters in order of appearance
         rec = sorted(self.record_attrs.items())
-        info.params = params + [(p, ln, N) for p, ln in rec] + [(d, ln, sh) for ln, sh, d in self.opaque_params]
-        info.extra_params = [f"{ln} = `{p}`" for p, ln in rec] + [f"{ln} = {d}" for ln, sh, d in self.opaque_params]
+        recb = sorted(self.record_bools.items())
+        recl = sorted(self.record_lists.items())
+        info.params = params + [(p, ln, N) for p, ln in rec] + [(p, ln, L(N)) for p, ln in recl] + \
+            [(p, ln, B) for p, ln in recb] + [(d, ln, sh) for ln, sh, d in self.opaque_params]
+        info.extra_params = [f"{ln} = `{p}`" for p, ln in rec] + [f"{ln} = `{p}` (list)" for p, ln in recl] + \
+            [f"{ln} = `{p}`" for p, ln in recb] + [f"{ln} = {d}" for ln, sh, d in self.opaque_params]
+        info.has_bool_or_list_attrs = bool(recb or recl)
         info.py_params = [a_.arg for a_ in node.args.args]
         info.record_names = set(self.records) & set(info.py_params)
         info.rec_paths = rec
@@ -1159,6 +1167,10 @@ class FnTranslator:
             self.fail(node, "unsupported np.iinfo use")
         # record parameter attribute path (zero-argument method calls are path segments: `area.size().width`)
         dotted = self.record_path(node, env)
+        if dotted is not None and dotted in self.cfg.get("record_lists", ()):
+            if dotted not in self.record_lists:
+                self.record_lists[dotted] = self.param_name(dotted.replace(".", "_").replace("()", ""))
+            return [], ("atom", self.record_lists[dotted], L(N))
         if dotted is not None:
             if dotted not in self.record_attrs:
                 self.record_attrs[dotted] = self.param_name(dotted.replace(".", "_").replace("()", ""))
@@ -1209,7 +1221,24 @@ class FnTranslator:
                 return NP_TYPES[s[len(pfx):]]
         return None
 
+    def enum_test(self, node, env):
+        """`rec.path == Enum.MEMBER` / `!=`: an opaque boolean attribute of the record (a Bool parameter)"""
+        if len(node.ops) == 1 and isinstance(node.ops[0], (ast.Eq, ast.NotEq)):
+            lp = self.record_path(node.left, env)
+            r = node.comparators[0]
+            if lp is not None and isinstance(r, ast.Attribute) and isinstance(r.value, ast.Name) \
+                    and r.value.id not in env.d and r.value.id[:1].isupper() and (r.value.id + "." + r.attr) not in self.m.consts:
+                key = lp + " == " + r.value.id + "." + r.attr
+                if key not in self.record_bools:
+                    self.record_bools[key] = self.param_name((lp + "_is_" + r.attr).replace(".", "_").replace("()", ""))
+                e = self.record_bools[key]
+                return [], ("atom", e if isinstance(node.ops[0], ast.Eq) else f"(!{e})", B)
+        return None
+
     def compare(self, node, env):
+        et = self.enum_test(node, env)
+        if et is not None:
+            return et
         pre, left = self.expr(node.left, env)
         parts = []
         first = True
@@ -1302,6 +1331,12 @@ class FnTranslator:
 
     def call(self, node, env, stmt=False):
         fname = ast.unparse(node.func)
+        # zero-argument method of a record: an attribute path (`fm.data_type.size_in_bytes()`)
+        rp = self.record_path(node, env)
+        if rp is not None:
+            if rp not in self.record_attrs:
+                self.record_attrs[rp] = self.param_name(rp.replace(".", "_").replace("()", ""))
+            return [], ("atom", self.record_attrs[rp], N)
         # NumPy casts
         t = self.np_type(node.func)
         if t:
@@ -1440,8 +1475,8 @@ class FnTranslator:
             info = mod.translate(f)
         except Untranslatable as e:
             self.fail(node, f"call of `{f}`, which is outside the subset [{e}]")
-        if info.n_opaque:
-            self.fail(node, f"call of `{f}`, which has opaque parameters")
+        if info.n_opaque or info.has_bool_or_list_attrs:
+            self.fail(node, f"call of `{f}`, which has opaque / boolean-attribute / list-attribute parameters")
         if mod is not self.m:
             self.m.deps.add(mod.lean_module)
         if node.keywords:
